@@ -1047,6 +1047,12 @@ fn c10_hist(input: &Input, obs: &mut Obs) -> Result<(), Fail> {
     let mut next_slot = 0usize;
     // model at quiescent points
     let mut accepted: Vec<usize> = Vec::new(); // slots the server accepted and has not released (by model)
+    // descriptors sent along with a request that has not been yielded yet, per client; and per request
+    let mut fd_pending: std::collections::HashMap<usize, usize> = std::collections::HashMap::new();
+    let mut fd_req: std::collections::HashMap<(usize, usize), usize> = std::collections::HashMap::new();
+    // bytes the client had sent when its descriptors went out: whatever it sends behind an incomplete
+    // request may get that request rejected, and descriptors pending at a parse error are dropped
+    let mut fd_mark: std::collections::HashMap<usize, usize> = std::collections::HashMap::new();
     let mut refusals = 0;
     let mut accepts_after_refusal = 0;
     let mut reached_cap = false;
@@ -1072,7 +1078,7 @@ fn c10_hist(input: &Input, obs: &mut Obs) -> Result<(), Fail> {
                 target_high = true;
                 cycles += 1;
             }
-            let wts: [u32; 12] = if target_high { [14, 2, 1, 4, 2, 3, 2, 3, 1, 2, 1, 2] } else { [3, 10, 3, 3, 1, 4, 2, 2, 1, 2, 2, 2] };
+            let wts: [u32; 13] = if target_high { [14, 2, 1, 4, 2, 3, 2, 3, 1, 2, 1, 2, 1] } else { [3, 10, 3, 3, 1, 4, 2, 2, 1, 2, 2, 2, 2] };
             let op = s.weighted(&wts);
             // with a read-shut client around, the number of held connections is not known exactly
             let mut burst_close = accepted.iter().any(|c| maybe(&w, *c))
@@ -1143,6 +1149,54 @@ fn c10_hist(input: &Input, obs: &mut Obs) -> Result<(), Fail> {
                         obs.label("flush_outgoing_writes");
                     }
                 }
+                12 => {
+                    // a request sent in 2..3 messages that each carry descriptors (0..253 per message,
+                    // more than 253 in all now and then); the last message may be withheld
+                    let live: Vec<usize> = accepted.iter().copied().filter(|c| alive(&w, *c) && w.clients[*c].staged.is_empty() && w.clients[*c].unsent.is_empty() && !w.clients[*c].dirty && !w.clients[*c].lazy).collect();
+                    if !live.is_empty() {
+                        let c = live[s.below(live.len())];
+                        let mut spec = spec_from(&mut s, false, false);
+                        spec.body = spec.body.min(40);
+                        let bytes = w.compose(c, &spec);
+                        let j = w.clients[c].composed.len() - 1;
+                        let npieces = s.range(2, 3).min(bytes.len());
+                        let mut cuts: Vec<usize> = (1..npieces).map(|i| i * bytes.len() / npieces).collect();
+                        cuts.push(bytes.len());
+                        let withhold = s.chance(50);
+                        let mut from = 0;
+                        let mut sent_fds = 0usize;
+                        let mut ok = true;
+                        for (pi, cut) in cuts.iter().enumerate() {
+                            if withhold && pi + 1 == cuts.len() {
+                                break;
+                            }
+                            let nf = [0usize, 1, 5, 100, 200, 253][s.weighted(&[3, 8, 5, 1, 1, 1])];
+                            if !w.send_with_fds(c, &bytes[from..*cut], nf) {
+                                ok = false;
+                                break;
+                            }
+                            sent_fds += nf;
+                            from = *cut;
+                            if s.chance(170) {
+                                w.settle(100, true);
+                            }
+                        }
+                        if !ok || withhold {
+                            // an incomplete request stays behind: the client is no longer a clean one
+                            w.clients[c].dirty = true;
+                        }
+                        *fd_pending.entry(c).or_insert(0) += sent_fds;
+                        fd_req.insert((c, j), sent_fds);
+                        fd_mark.insert(c, w.clients[c].sent.len());
+                        obs.label("request_with_descriptors");
+                        if sent_fds > 253 {
+                            obs.label("more_than_253_descriptors_for_one_request");
+                        }
+                        if withhold {
+                            obs.label("descriptors_pending_with_incomplete_request");
+                        }
+                    }
+                }
                 11 => {
                     // several requests (some announcing their body with Expect) reach the server in one read
                     let live: Vec<usize> = accepted.iter().copied().filter(|c| alive(&w, *c) && w.clients[*c].staged.is_empty() && !w.clients[*c].dirty).collect();
@@ -1177,7 +1231,7 @@ fn c10_hist(input: &Input, obs: &mut Obs) -> Result<(), Fail> {
                         }
                         let mut big = false;
                         while let Some(k) = w.outstanding.iter().position(|o| o.c == c) {
-                            let size = if big { s.range(0, 300) } else { [300_000usize, 500_000, 1_000_000][s.below(3)] };
+                            let size = if big { s.range(0, 300) } else { [260_000usize, 300_000, 600_000][s.below(3)] };
                             big = true;
                             w.respond(k, 200, size);
                         }
@@ -1301,10 +1355,25 @@ fn c10_hist(input: &Input, obs: &mut Obs) -> Result<(), Fail> {
             if serving > 10 {
                 return Err(("over-capacity".into(), format!("{} clients are connected and unrefused at once", serving)));
             }
+            // descriptors that travelled with requests: those of a yielded request belong to it (and
+            // to the application until it has answered), the others wait at the connection
+            for ((c, j), n) in fd_req.iter() {
+                if w.clients[*c].yielded.contains(j) {
+                    if let Some(p) = fd_pending.get_mut(c) {
+                        *p = p.saturating_sub(*n);
+                    }
+                }
+            }
+            fd_req.retain(|(c, j), _| !w.clients[*c].yielded.contains(j));
+            let with_app: isize = w.outstanding.iter().map(|o| o.sreq.request.files.len() as isize).sum();
+            let want_with_app: isize = 0;
+            let _ = want_with_app;
+            let waiting_lo: isize = fd_pending.iter().filter(|(c, _)| alive(&w, **c) && fd_mark.get(*c) == Some(&w.clients[**c].sent.len())).map(|(_, n)| *n as isize).sum();
+            let waiting_hi: isize = fd_pending.iter().filter(|(c, _)| accepted.contains(*c)).map(|(_, n)| *n as isize).sum();
             // descriptor accounting at the quiescent point
             let held = w.held();
-            let upper = accepted.len() as isize;
-            let lower = accepted.iter().filter(|c| alive(&w, **c)).count() as isize;
+            let upper = accepted.len() as isize + with_app + waiting_hi;
+            let lower = accepted.iter().filter(|c| alive(&w, **c)).count() as isize + with_app + waiting_lo;
             if held < lower || held > upper {
                 return Err((
                     "fd-accounting".into(),
@@ -2311,6 +2380,7 @@ fn c18_kill(input: &Input, obs: &mut Obs) -> Result<(), Fail> {
     // kill at every position of the history
     for p in 0..=ops.len() {
         let mut w = World::new(16, true, obs.want_render && p == ops.len() / 2).map_err(|e| Fail::new("harness-world", e))?;
+        w.keep_answered = true;
         let mut next_slot = 0;
         for op in &ops[..p] {
             k_apply(&mut w, op, &mut next_slot);
@@ -2391,6 +2461,7 @@ fn c18_kill(input: &Input, obs: &mut Obs) -> Result<(), Fail> {
     // differential: no kill switch vs registered-but-unsignalled
     let run = |with_kill: bool| -> Result<KTranscript, Fail> {
         let mut w = World::new(16, with_kill, false).map_err(|e| Fail::new("harness-world", e))?;
+        w.keep_answered = true;
         let mut next_slot = 0;
         for op in &ops {
             k_apply(&mut w, op, &mut next_slot);
